@@ -35,8 +35,16 @@ fn tuple_kinds() -> Vec<(&'static str, Kind)> {
     ]
 }
 
-// identifiers with `_` directly before a digit are left out: whether that digit run is "split off" once more is not settled by the statement
-const IDENT_POOL: [&str; 15] = ["Hello2You", "HTTPServer", "A1", "Utf8To16", "X_y", "Ab2c3", "V1", "Café2", "Ünï3x", "r#try", "RParen", "R_x", "x86", "arm64v", "_res"];
+// For identifiers with `_` directly before a digit (`X86_64`, `V_2`) the statement does not settle whether that digit run is
+// "split off" once more (`x_86__64` or `x_86_64`): such a variant is constructed and asked every OTHER variant's predicate and
+// accessors (all false / None), and the derive must compile, but its own methods are not called by name.
+// Identifiers that begin with the word `Is` still get the `is_` prefix (`is_is_empty`).
+const IDENT_POOL: [&str; 19] = ["Hello2You", "HTTPServer", "A1", "Utf8To16", "X_y", "Ab2c3", "V1", "Café2", "Ünï3x", "r#try", "RParen", "R_x", "x86", "arm64v", "_res", "X86_64", "V_2", "IsEmpty", "Is"];
+
+pub fn name_unsettled(ident: &str) -> bool {
+    let cs: Vec<char> = ident.chars().collect();
+    cs.windows(2).any(|w| w[0] == '_' && w[1].is_ascii_digit())
+}
 
 fn alphabet(n: usize) -> Vec<Dev> {
     let mut d: Vec<Dev> = Vec::new();
@@ -201,7 +209,7 @@ pub fn render(spec: &EnumSpec) -> String {
     let mut seen_names: Vec<String> = Vec::new();
     for (i, v) in spec.variants.iter().enumerate() {
         let m = refsem::snakify(&v.ident);
-        if seen_names.contains(&m) {
+        if seen_names.contains(&m) || name_unsettled(&v.ident) {
             continue;
         }
         seen_names.push(m.clone());
@@ -218,6 +226,9 @@ pub fn render(spec: &EnumSpec) -> String {
             let e = format!("vf_core::id::<EC>({})", render_ctor(spec, vi, &fx));
             o.push_str(&format!("    {{\n        let e: EC = {};\n", e));
             for (mi, mv) in spec.variants.iter().enumerate() {
+                if name_unsettled(&mv.ident) {
+                    continue;
+                }
                 let m = refsem::snakify(&mv.ident);
                 o.push_str(&format!("        obs.push(({vi}, {j}, \"is_{m}\".to_string(), format!(\"{{:?}}\", e.is_{m}().probe())));\n", vi = vi, j = j, m = m));
                 let _ = mi;
